@@ -3,6 +3,7 @@ package main
 // govc check: run a property's obligations against /repo's working tree, report, write evidence.
 
 import (
+	"regexp"
 	"go/constant"
 	"encoding/json"
 	"flag"
@@ -334,9 +335,15 @@ func cmdCheck(args []string) {
 	}
 	if *updateNames {
 		var names []string
+		bad := map[string]bool{}
 		for _, rw := range rows {
-			if rw.ok && !rw.o.IsCover {
-				names = append(names, rw.o.Name)
+			if !rw.ok && !rw.o.IsCover {
+				bad[groupName(rw.o.Name)] = true
+			}
+		}
+		for _, rw := range rows {
+			if rw.ok && !rw.o.IsCover && !bad[groupName(rw.o.Name)] {
+				names = append(names, groupName(rw.o.Name))
 			}
 		}
 		sort.Strings(names)
@@ -363,44 +370,70 @@ func cmdCheck(args []string) {
 	nClaimed := 0
 	var samples []map[string]interface{}
 	replayDir := filepath.Join(verifDir(), "replays", spec.ID)
+	// index generated obligations by claimed (group) name
+	byGroup := map[string][]*row{}
+	funcsGenerated := map[string]bool{}
+	for _, rw := range rows {
+		if rw.o.IsCover {
+			continue
+		}
+		g := groupName(rw.o.Name)
+		byGroup[g] = append(byGroup[g], rw)
+		funcsGenerated[rw.o.Fn] = true
+	}
 	for _, name := range claimedOrder {
-		rw := byName[name]
-		nClaimed++
-		if rw == nil {
+		members := byGroup[name]
+		isGroup := strings.HasSuffix(name, "#*") || strings.Contains(name, "/call#*.")
+		if len(members) == 0 {
+			if isGroup {
+				// a group may become empty (e.g. the last index expression was removed) as long as its function is still there
+				fn := name[:strings.LastIndex(name, "/")]
+				if i := strings.Index(fn, ">"); i >= 0 {
+					fn = fn[:strings.Index(fn, "@")]
+				}
+				if funcsGenerated[fn] {
+					nClaimed++
+					discharged++
+					continue
+				}
+			}
+			nClaimed++
 			lines = append(lines, "CONTRACT-MISMATCH property="+spec.ID+" obligation="+name+" (claimed obligation was not generated: function, loop or call site changed)")
 			broken = true
 			continue
 		}
-		if rw.ok {
-			discharged++
-			if len(samples) < 3 && (rw.o.Kind == "ensures" || rw.o.Kind == "inv-pres" || rw.o.Kind == "lemma" || rw.o.Kind == "pre" || rw.o.Kind == "assert") {
-				samples = append(samples, map[string]interface{}{"obligation": rw.o.Name, "kind": rw.o.Kind, "where": posStr(rw.o), "statement": rw.o.Desc,
-					"smt_goal": truncStr(goalString(rw.o), 600), "solver": rw.o.Solver, "ms": rw.o.Millis})
+		for _, rw := range members {
+			nClaimed++
+			if rw.ok {
+				discharged++
+				if len(samples) < 3 && (rw.o.Kind == "ensures" || rw.o.Kind == "inv-pres" || rw.o.Kind == "lemma" || rw.o.Kind == "pre" || rw.o.Kind == "assert") {
+					samples = append(samples, map[string]interface{}{"obligation": rw.o.Name, "kind": rw.o.Kind, "where": posStr(rw.o), "statement": rw.o.Desc,
+						"smt_goal": truncStr(goalString(rw.o), 600), "solver": rw.o.Solver, "ms": rw.o.Millis})
+				}
+				continue
 			}
-			continue
+			if rw.o.Status == "disagree" {
+				lines = append(lines, "SOLVER-DISAGREEMENT property="+spec.ID+" obligation="+rw.o.Name)
+				broken = true
+				continue
+			}
+			if f := matchFinding(findings, spec.ID, rw.o.Name); f != nil {
+				lines = append(lines, "KNOWN-FINDING: property="+spec.ID+" "+f.Rest)
+				known++
+				continue
+			}
+			violations++
+			path, reproduced := cr.replay(rw.r, rw.o, replayDir)
+			l := "VIOLATION property=" + spec.ID + " replay=" + path
+			if !reproduced {
+				l += " no-failing-input-found"
+			}
+			lines = append(lines, l+"   # obligation "+rw.o.Name+" ("+rw.o.Status+")")
 		}
-		if rw.o.Status == "disagree" {
-			lines = append(lines, "SOLVER-DISAGREEMENT property="+spec.ID+" obligation="+name)
-			broken = true
-			continue
-		}
-		// failed claimed obligation
-		if f := matchFinding(findings, spec.ID, name); f != nil {
-			lines = append(lines, "KNOWN-FINDING: property="+spec.ID+" "+f.Rest)
-			known++
-			continue
-		}
-		violations++
-		path, reproduced := cr.replay(rw.r, rw.o, replayDir)
-		l := "VIOLATION property=" + spec.ID + " replay=" + path
-		if !reproduced {
-			l += " no-failing-input-found"
-		}
-		lines = append(lines, l+"   # obligation "+name+" ("+rw.o.Status+")")
 	}
 	// new obligations that fail
 	for _, rw := range rows {
-		if claimed[rw.o.Name] || rw.ok || rw.o.IsCover {
+		if claimed[groupName(rw.o.Name)] || rw.ok || rw.o.IsCover {
 			continue
 		}
 		if f := matchFinding(findings, spec.ID, rw.o.Name); f != nil {
@@ -505,6 +538,33 @@ func cmdCheck(args []string) {
 	os.WriteFile(filepath.Join(verifDir(), "evidence", spec.ID+".json"), data, 0644)
 	fmt.Printf("%s %s: claimed=%d discharged=%d violations=%d known-findings=%d undecided-new=%d generated=%d wall=%.1fs\n", spec.ID, *tier, nClaimed, discharged, violations, known, undecided, len(rows), wall)
 	os.Exit(exit)
+}
+
+var (
+	reSafety = regexp.MustCompile(`/(bounds|slice|nil|div|shift|nilmap|assertT|makeslice|conv|panic)#\d+$`)
+	rePre    = regexp.MustCompile(`/pre@([^#]+)#\d+\.[A-Za-z0-9]+$`)
+	reCall   = regexp.MustCompile(`/call#\d+\.([a-z-]+)$`)
+	reFrame  = regexp.MustCompile(`/(frame-init|frame-pres)@loop(\d+)#\d+$`)
+)
+
+// groupName maps an obligation name to the name under which it is claimed. Automatic safety obligations
+// and call-site preconditions are claimed per function and kind ("all of them discharge"), so that an
+// unrelated edit which shifts their ordinals is not a contract mismatch; obligations that stem from a
+// contract clause keep their exact name.
+func groupName(n string) string {
+	if m := reSafety.FindStringSubmatchIndex(n); m != nil {
+		return n[:m[0]] + "/" + n[m[2]:m[3]] + "#*"
+	}
+	if m := rePre.FindStringSubmatchIndex(n); m != nil {
+		return n[:m[0]] + "/pre@" + n[m[2]:m[3]] + "#*"
+	}
+	if m := reCall.FindStringSubmatchIndex(n); m != nil {
+		return n[:m[0]] + "/call#*." + n[m[2]:m[3]]
+	}
+	if m := reFrame.FindStringSubmatchIndex(n); m != nil {
+		return n[:m[0]] + "/" + n[m[2]:m[3]] + "@loop" + n[m[4]:m[5]] + "#*"
+	}
+	return n
 }
 
 func uniq(s []string) []string {
